@@ -467,6 +467,8 @@ class StmtMixin:
                             out.append(ok)
                         if ex is not None:
                             out.append(ex)
+                    elif isinstance(b, VRef) and b.cls is not None and self.find_method(b.cls, '__setitem__') is not None:
+                        out.extend(s3 for s3, _ in self.call_repo(s2, self.find_method(b.cls, '__setitem__'), [b, idx, v], {}, node))
                     else:
                         self.unsupported(node, 'subscript assignment on %r' % (b,))
             return out
